@@ -5,7 +5,8 @@ from . import universe
 MODULE = "StorageModel.Properties.C16"
 THEOREMS = ["system_needs_system_ctx", "system_needs_system_ctx_parent_registration",
             "system_needs_system_ctx_child_registration", "system_needs_system_ctx_plain_shape",
-            "plain_shape_no_child_data", "unchanged_update_refused", "unchanged_update_allowed", "refused_tx_unchanged", "refused_aborts", "system_needs_system_ctx_tx",
+            "plain_shape_no_child_data", "unchanged_update_refused", "unchanged_update_allowed",
+            "every_setter_is_a_gated_write", "errored_bucket_never_written", "refused_update_any_strategy", "update_runs_strategy", "allowed_update_writes", "refused_tx_unchanged", "refused_aborts", "system_needs_system_ctx_tx",
             "ordinary_step_preserves_system", "ordinary_tx_preserves_system", "ordinary_history_preserves_system",
             "ordinary_history_preserves_system_parent_registration", "ordinary_history_preserves_system_child_registration",
             "step_reg", "cascade_never_deletes_system",
@@ -55,7 +56,10 @@ def histogram(case, impl, h):
         h[k] = h.get(k, 0) + 1
     f = case.split(" ")
     ntx = len(f) - 2
-    inc("constraint-registered:" + _REG.get(f[0], f[0]))
+    wide = len(f[0]) > 1 and f[0].endswith("W")
+    base = f[0][:-1] if wide else f[0]
+    inc("constraint-registered:" + _REG.get(base, base))
+    inc("entity-strategy-setters:" + ("wide(every-setter)" if wide else "plain(SetString)"))
     inc(f"transactions:{min(ntx, 9)}")
     for tx in f[2:]:
         head, _, body = tx.partition("!")
@@ -130,7 +134,14 @@ def describe(case, impl, model, spec):
                     "on error": "abort" if head[1] == "a" else "ignore (unless the failed call left partial writes) and commit",
                     "ops": [op(o) for o in body.split(";")]})
     pools = f[1].split("/")
-    return {"kind": "history", "system entity constraint registered": _REG.get(f[0], f[0]),
+    wide = len(f[0]) > 1 and f[0].endswith("W")
+    base = f[0][:-1] if wide else f[0]
+    return {"kind": "history", "system entity constraint registered": _REG.get(base, base),
+            "entity strategy": ("WIDE: name / owner / level through GetAndSetString / SetStringP, a copy derived from the name "
+                                "(level) through SetRequiredString, SetStringP, SetInt32, SetInt64, SetBool, SetTimeP, SetTime, "
+                                "SetFloat64, SetStringList, GetAndSetStringList, SetMap, PutList (harness/c16_wide.go); a view "
+                                "entry `<name>?<copy>` / level `?bad:<copy>` = that copy disagrees with the field")
+            if wide else "plain: SetBaseValues, SetString(name), SetString(owner), child store SetString(level)",
             "pool": [_unhex(k) for k in pools[0].split(",")],
             "owner pool": [_unhex(k) for k in pools[1].split(",")] if len(pools) > 1 and pools[1] else [],
             "transactions": txs, "impl": impl, "model": model, "spec": spec, "case": case}
@@ -154,7 +165,14 @@ RULE = ("each case is a history of Db.Update transactions over real stores on a 
         "far end, each followed by direct attempts from an ordinary context and a read-back — all of (2) with the constraint on S, and "
         "thinned out (entities created through S or through C) with the constraint on C only and on both; (2b) updates that change nothing: the entity is loaded and written back unchanged with 5 checker shapes (nil, empty, "
         "unchanged fields, fields Update never writes) from 4 context kinds on a system / ordinary entity, same or later "
-        "transaction, in the plain shape, with a child store, with the constraint on the child store; (3) random histories (2-7 "
+        "transaction, in the plain shape, with a child store, with the constraint on the child store; (2d) the WIDE entity strategies "
+        "(kinds HPW, HW, HCW, HBW: name / owner / level persisted through GetAndSetString / SetStringP and, under the same checker "
+        "bit, a copy derived from the name (level) through SetRequiredString, SetStringP (nil for empty), SetInt32, SetInt64, SetBool, "
+        "SetTimeP, SetTime, SetFloat64, SetStringList, GetAndSetStringList, SetMap, PutList; every copy is read back and a "
+        "disagreeing one shows in the view): a system / ordinary entity created through S or C, then one update (full, 8 checker "
+        "shapes, empty name, changed owner, write-back, through S or C) from 4 context kinds, same / later transaction, abort / "
+        "keep-going, read-back and ordinary probe; the two-step family (1), the indirect family (2) and the no-change family (2b) "
+        "again with wide strategies; a quarter of the random histories use them; (3) random histories (2-7 "
         "transactions of 1-4 operations over 2-4 ids and 1-3 owners) mixing all operations and context kinds, IsSystem 1/2, "
         "Migrate 2/5, timestamps from {zero, 1000, 2000, 3000}, tags nil or a value, 16 checker shapes. After every "
         "operation the error kind, after a failing operation the uncommitted state, after every transaction FindById "
@@ -202,7 +220,7 @@ def candidates(case):
 def run(ctx, replay_cases=None):
     ctx.assumptions += [
         "bbolt: Db.Update commits iff the body returns nil, otherwise nothing is written (exercised by the correspondence on every run)",
-        "every typed setter of PersistContext/TypedBucket is a no-op once the bucket's error holder is set (ProceedWithSet; exercised by the keep-going histories: a refused update that is ignored and committed leaves the entity unchanged)",
+        "each setter of PersistContext/TypedBucket has the shape `if ProceedWithSet(field) { write }` (SetRequiredString: `… { if blank { SetError } else write }`): the model's Write.run; Update is modelled on the bucket with its error holder (Bkt, runWrites, updateWith) and refused_update_any_strategy holds for every list of such calls. Tie (a) by extraction: /verif/extract/c16setters.go classifies the source of every setter of *TypedBucket (taking a FieldChecker) and *PersistContext and of both ProceedWithSet functions (Generated/C16Setters.lean; obligation every_setter_is_a_gated_write), (b) by execution: the WIDE strategies (case kinds ending in W) put SetRequiredString, SetStringP, GetAndSetString, SetInt32, SetInt64, SetBool, SetTimeP, SetTime, SetFloat64, SetStringList, GetAndSetStringList, SetMap/PutMap, PutList on the path of every update and read every written copy back; SetLinkedIds and the untyped setTyped/SetNil/PutValue helpers are not called by any strategy of the harness",
         "the entity's PersistEntity uses BaseExtEntity.SetBaseValues (a store whose strategy writes isSystem itself is outside the model)",
         "the universe of the model: one constrained store with one nullable cascade-delete fk and one link collection to a second store, one plain child store, the system constraint registered after the fk constraint on the parent store, after the level symbol on the child store (registration on S / C / both / nowhere is a parameter) (other schemas: more fks, restrict instead of cascade, extended child stores, constraint orders are outside the model)",
         "link collections are outside the property: they take a bare *bbolt.Tx, no MutateContext, so the constraint cannot apply (the model records what they do; the theorems state everything but the link set of a system entity is untouched by ordinary contexts)",
